@@ -8,6 +8,7 @@ RULE = ("micro APIs over a grid: (response-type form) x (metadata-type form) wit
         "google.protobuf.Empty (imported by the service's file or only by another file), nested (qualified, package-relative, and "
         "package-relative while a top-level package of the same name exists, package-relative with the enclosing message in "
         "another file, imported or not), a type alone in a file of its own that nobody imports and no other method uses, flattened request fields named like the api_core modules (operation, operation_async), "
+        "the asyncio REST transport (rest_async_io_enabled; packages v2 / v1beta1; with and without Operations http rules), "
         "service-YAML http rules for the operations service with additional bindings (operation names matching each binding in turn), "
         "selective generation with generate_omitted_as_internal (every LRO rpc internal; one internal and one public), "
         "another package, missing, unknown (relative, qualified, leading dot), plus un-annotated Operation methods, three packages. "
@@ -149,7 +150,7 @@ def client_names(cell):
 def service_yaml(cell, pkg):
     """Option file of the cell: http rules for the operations service (the REST operations client must use them) and/or
     selective generation with generate_omitted_as_internal (every rpc but the listed ones becomes an internal method)."""
-    if not cell.get("ops_http") and not cell.get("internal"):
+    if not cell.get("ops_http") and not cell.get("internal") and not cell.get("rest_async"):
         return None
     sy = {"type": "google.api.Service", "config_version": 3, "name": "jobs.example.com", "apis": [{"name": pkg + ".Jobs"}]}
     if cell.get("ops_http"):
@@ -161,10 +162,15 @@ def service_yaml(cell, pkg):
             get["additional_bindings"] = [{"get": "/%s/{name=%s/*/operations/*}" % (OPS_PREFIX, c)} for c in ("organizations", "folders")]
             cancel["additional_bindings"] = [{"post": "/%s/{name=organizations/*/operations/*}:cancel" % OPS_PREFIX, "body": "*"}]
         sy["http"] = {"rules": [get, cancel]}
+    py = {}
     if cell.get("internal"):
         public = ["Peek"] + (["Restart"] if cell["internal"] == "some" else [])
-        sy["publishing"] = {"library_settings": [{"version": pkg, "python_settings": {"common": {"selective_gapic_generation": {
-            "methods": [f"{pkg}.Jobs.{m}" for m in public], "generate_omitted_as_internal": True}}}}]}
+        py["common"] = {"selective_gapic_generation": {"methods": [f"{pkg}.Jobs.{m}" for m in public], "generate_omitted_as_internal": True}}
+    if cell.get("rest_async"):
+        # the asyncio REST transport (rest_asyncio.py) is emitted only with this experimental switch
+        py["experimental_features"] = {"rest_async_io_enabled": True}
+    if py:
+        sy["publishing"] = {"library_settings": [{"version": pkg, "python_settings": py}]}
     return sy
 
 
@@ -218,7 +224,12 @@ def extract_rest_http_options(src):
                 raise ValueError(f"binding keys {sorted(dd)}")
             bs.append(dd)
         out.append((k.value, bs))
-    return out
+    calls = [n for n in ast.walk(prop) if isinstance(n, ast.Call) and any(k.arg == "http_options" for k in n.keywords)]
+    prefix = [k.value for k in calls[0].keywords if k.arg == "path_prefix"]
+    if len(prefix) != 1 or not (isinstance(prefix[0], ast.Constant) and isinstance(prefix[0].value, str)):
+        raise ValueError("path_prefix is not a string constant of the operations transport")
+    host = [ast.unparse(k.value) for k in calls[0].keywords if k.arg == "host"]
+    return {"options": out, "path_prefix": prefix[0].value, "host": host, "ctor": ast.unparse(calls[0].func)}
 
 
 def generate(cell, req, pkg, tag):
@@ -810,16 +821,27 @@ def e2e_case(args):
             continue
         res["t1"].append((f"{fname}: operations_client present = {present} [{json.dumps(cell, sort_keys=True)}]",
                           f"Bool.eqb (has_operations_client {sm_terms}) {coq.b(present)}"))
-    try:
-        ho = extract_rest_http_options(files[base + "transports/rest.py"])
-        if ho is not None:
-            obs = coq.lst(f"({coq.s(k)}, " + coq.lst(f"(mkPB {coq.s(b['method'])} {coq.s(b['uri'])} {coq.opt(b.get('body'))})" for b in bs) + ")"
-                          for k, bs in ho)
-            res["t1"].append((f"transports/rest.py: http_options of operations_client [{json.dumps(cell, sort_keys=True)}]",
-                              f"http_options_eqb (ops_http_options {http_rules_term(service_yaml(cell, pkg))}) {obs}"))
-    except Exception as e:  # noqa
-        res["oblige"].append(("T1 reading http_options of the REST operations_client", False,
-                              f"{json.dumps(cell, sort_keys=True)}: {e!r}"[:400]))
+    rest_files = [("transports/rest.py", "operations_v1.OperationsRestTransport")]
+    if cell.get("rest_async"):
+        rest_files.append(("transports/rest_asyncio.py", "operations_v1.AsyncOperationsRestTransport"))
+        if base + "transports/rest_asyncio.py" not in files:
+            res["oblige"].append(("T1 rest_asyncio.py is emitted when rest_async_io_enabled is set", False, json.dumps(cell, sort_keys=True)))
+            rest_files.pop()
+    for fname, want_ctor in rest_files:
+        try:
+            ho = extract_rest_http_options(files[base + fname])
+            if ho is not None:
+                obs = coq.lst(f"({coq.s(k)}, " + coq.lst(f"(mkPB {coq.s(b['method'])} {coq.s(b['uri'])} {coq.opt(b.get('body'))})" for b in bs) + ")"
+                              for k, bs in ho["options"])
+                res["t1"].append((f"{fname}: http_options of operations_client [{json.dumps(cell, sort_keys=True)}]",
+                                  f"http_options_eqb (ops_http_options {http_rules_term(service_yaml(cell, pkg))}) {obs}"))
+                res["t1"].append((f"{fname}: path_prefix of operations_client = {ho['path_prefix']!r} [{json.dumps(cell, sort_keys=True)}]",
+                                  f"String.eqb (ops_path_prefix {coq.s(pkg)}) {coq.s(ho['path_prefix'])}"))
+                res["oblige"].append((f"T1 {fname}: the operations transport is {want_ctor}(host=self._host, ...)",
+                                      ho["ctor"] == want_ctor and ho["host"] == ["self._host"], f"{ho['ctor']} host={ho['host']}"))
+        except Exception as e:  # noqa
+            res["oblige"].append((f"T1 reading http_options / path_prefix of the operations_client of {fname}", False,
+                                  f"{json.dumps(cell, sort_keys=True)}: {e!r}"[:400]))
     for fname, suffix, is_async in (("transports/grpc.py", "GrpcTransport", False), ("transports/grpc_asyncio.py", "GrpcAsyncIOTransport", True)):
         try:
             oc = extract_ops_client(files[base + fname], suffix)
@@ -858,6 +880,8 @@ def e2e_case(args):
         from google.protobuf import json_format
         from google.longrunning import operations_pb2
         transports = [(sync_cls, "grpc"), (async_cls, "grpc_asyncio"), (sync_cls, "rest")]
+        if cell.get("rest_async") and got[0] == "lro":
+            transports.append((async_cls, "rest_asyncio"))
         calls, metas = [], []
         if got[0] == "raw":
             o = operations_pb2.Operation(name=OP_NAME, done=False)
@@ -897,7 +921,15 @@ def e2e_case(args):
                                 "http_script": [{"status": 200, "body": json_format.MessageToJson(o, descriptor_pool=d.pool)} for o in ops]}
                         calls.append(spec)
                         metas.append({"transport": tr, "history": h, "view": view, "ops": ops, "rpc": rpc})
-        outc = gen.impl("drive", {"root": root, "package": pypkg, "calls": calls})
+        # the asyncio REST transport has its own driver; results are put back in call order
+        ra = [i for i, mt in enumerate(metas) if mt["transport"] == "rest_asyncio"]
+        rest_of = [i for i in range(len(calls)) if i not in ra]
+        outc = [None] * len(calls)
+        for i, o in zip(rest_of, gen.impl("drive", {"root": root, "package": pypkg, "calls": [calls[i] for i in rest_of]})):
+            outc[i] = o
+        if ra:
+            for i, o in zip(ra, gen.impl("c08_rest_async", {"root": root, "package": pypkg, "calls": [calls[i] for i in ra]})):
+                outc[i] = o
         for spec, meta, o in zip(calls, metas, outc):
             tr = meta["transport"]
             tag = f"{spec['client']}/{tr}.{spec['method']}"
@@ -927,12 +959,13 @@ def e2e_case(args):
                 bad(f"{tag} [{h['id']}] raised {o['error']['exception']}: {o['error']['message'][:200]}", xcase, quirk_sig)
                 continue
             v = o["result"][0]
-            want_future = "google.api_core.operation_async.AsyncOperation" if tr == "grpc_asyncio" else "google.api_core.operation.Operation"
+            want_future = ("google.api_core.operation_async.AsyncOperation" if tr in ("grpc_asyncio", "rest_asyncio")
+                           else "google.api_core.operation.Operation")
             if v.get("type") != want_future:
                 bad(f"{tag} returned {v.get('type')}, expected an operation future {want_future}", xcase)
                 continue
             # where the polling went
-            if tr == "rest":
+            if tr in ("rest", "rest_asyncio"):
                 polls = [c for c in o["http_calls"][1:]]
                 prefix = OPS_PREFIX if cell.get("ops_http") else pkg.split(".")[-1]
                 ok_paths = all(c["verb"] == "GET" and c["path"] == f"/{prefix}/{h['op_name']}" for c in polls)
@@ -943,7 +976,7 @@ def e2e_case(args):
                 first_ok = o["grpc_calls"] and o["grpc_calls"][0]["path"] == f"/{pkg}.Jobs/{meta['rpc']}"
             expected_polls = 0 if h["initial_done"] else h["not_done"] + 1
             # ---- T2: the future contract, inside Coq
-            is_a = tr == "grpc_asyncio"
+            is_a = tr in ("grpc_asyncio", "rest_asyncio")
             g = gots[is_a] if (gots[is_a] and gots[is_a][0] == "lro") else got
             w = f"(emit_wrap {coq.b(is_a)} {coq.s(g[1])} {coq.s(g[2])})"
             obs = (f"(mkObs {observed_outcome(req, pypkg, v.get('result'), v.get('result_error'), g[1], is_a)} "
@@ -955,10 +988,10 @@ def e2e_case(args):
             # ---- direct oracle
             if not first_ok or not ok_paths:
                 bad(f"{tag} [{h['id']}]: polling did not go to google.longrunning.Operations.GetOperation on the client's own connection: "
-                    f"{[c.get('path') for c in (o['http_calls'] if tr == 'rest' else o['grpc_calls'])]}", xcase)
+                    f"{[c.get('path') for c in (o['http_calls'] if tr in ('rest', 'rest_asyncio') else o['grpc_calls'])]}", xcase)
             if len(polls) != expected_polls:
                 bad(f"{tag} [{h['id']}]: {len(polls)} GetOperation calls, expected {expected_polls}", xcase)
-            if tr != "rest":
+            if tr not in ("rest", "rest_asyncio"):
                 for c in polls:
                     rqn = operations_pb2.GetOperationRequest.FromString(base64.b64decode(c["requests"][0])) if c["requests"] else None
                     if rqn is None or rqn.name != h["op_name"]:
@@ -986,7 +1019,7 @@ def e2e_case(args):
                 elif "GoogleAPICallError" not in e.get("mro", []) or "boom" not in e.get("message", ""):
                     bad(f"{tag} [{h['id']}]: result() raised {e.get('exception')}: {e.get('message', '')[:120]}, expected the operation's "
                         f"error (status {h['code']}, message 'boom') as an API error", xcase)
-                elif tr != "grpc_asyncio" and (e.get("grpc_status_code") != h["code"] or e.get("exception") != CODE_EXC[h["code"]]):
+                elif tr not in ("grpc_asyncio", "rest_asyncio") and (e.get("grpc_status_code") != h["code"] or e.get("exception") != CODE_EXC[h["code"]]):
                     bad(f"{tag} [{h['id']}]: result() raised {e.get('exception')} ({e.get('grpc_status_code')}), expected "
                         f"{CODE_EXC[h['code']]} for status {h['code']}", xcase)
             mv = v.get("metadata")
@@ -1029,6 +1062,8 @@ def e2e_cells(ctx, n):
         {"pkg_index": 1, "resp": "rel_alone", "meta": "rel_same", "annotated": True, "order": "types-first"},
         {"pkg_index": 2, "resp": "fq_same", "meta": "rel_imported", "annotated": True, "order": "svc-first", "internal": "some", "raw_sibling": True},
         {"pkg_index": 1, "resp": "rel_imported", "meta": "rel_same", "annotated": True, "order": "svc-first", "ops_http": "multi"},
+        {"pkg_index": 2, "resp": "rel_same", "meta": "rel_notimported", "annotated": True, "order": "svc-first", "rest_async": True},
+        {"pkg_index": 1, "resp": "fq_imported", "meta": "rel_same", "annotated": True, "order": "types-first", "rest_async": True, "ops_http": "multi"},
         {"pkg_index": 0, "resp": "empty", "meta": "rel_nested_imported", "annotated": True, "order": "types-first", "flat": "operation_async"},
     ]
     i = 0
@@ -1043,6 +1078,8 @@ def e2e_cells(ctx, n):
             c["flat"] = r.choice(["operation", "operation_async", "both"])
         if r.random() < 0.3:
             c["internal"] = r.choice(["all", "some"])
+        if r.random() < 0.3:
+            c["rest_async"] = True
         if c not in cells:
             cells.append(c)
     out = []
@@ -1097,7 +1134,7 @@ def run(ctx):
     t = threading.Thread(target=schema)
     t.start()
     try:
-        run_e2e(ctx, e2e_cells(ctx, ctx.n(28, 110)), tier_all=not ctx.quick())
+        run_e2e(ctx, e2e_cells(ctx, ctx.n(31, 110)), tier_all=not ctx.quick())
     finally:
         t.join()
     if errs:
